@@ -390,6 +390,17 @@ func (b *Batch) setFlagWithErr(f RecordFlag, i int, errs []error) {
 				// records in the split record.
 				from, to := b.findSplitRecord(idx)
 				for j := from; j <= to; j++ {
+					if b.recordStatuses[j].Flag == RecordFlagFilter {
+						// A filtered piece stays filtered (it still counts
+						// towards its run, which is nacked as a whole by its
+						// other pieces). Overwriting the flag would put the
+						// piece back into the active set without adjusting
+						// filterCount, shifting every active index a caller
+						// resolves after this call (e.g. the next ack
+						// response in DestinationTask.Do) onto the wrong
+						// record.
+						continue
+					}
 					b.recordStatuses[j].Flag = f
 					b.recordStatuses[j].Error = err
 				}
